@@ -8,7 +8,7 @@ from . import detsched, progs
 from .common import Violation
 
 KINDS = ('stp', 'lpm', 'pf', 'pm', 'pf2')
-EXCS = ('VErrA', 'VErrB', 'VErrC', 'VBase', 'IndexError')
+EXCS = ('VErrA', 'VErrB', 'VErrC', 'VBase', 'IndexError', 'VFalsy')
 
 
 class Trace:
@@ -38,7 +38,7 @@ def key_of(i):
 
 
 def result_value(case, i):
-    v = None if i in case.get('none_at', []) else ('r', i)
+    v = None if i in case.get('none_at', []) else progs.token(progs.value_of(case.get('vk'), ('r', i)))
     if case.get('with_key'):
         return (key_of(i), v)
     return v
@@ -101,7 +101,7 @@ def run_case(case, trace_lines=True):
             sched.event('end', i)
             raise mkexc(fn_fail[i], 'fn', i)
         sched.event('end', i)
-        return None if i in none_at else ('r', i)
+        return None if i in none_at else progs.value_of(case.get('vk'), ('r', i))
 
     def fn(x):
         return work(x[1])
@@ -235,6 +235,12 @@ def run_case(case, trace_lines=True):
         except detsched.Abort:
             outcome = 'deadlock' if sched.deadlock else 'steplimit'
         tr.executors = list(patched.executor_cls.instances)
+    # examples may be arrays, exception objects or objects that refuse comparison: judge comparable stand-ins
+    tr.delivered = [progs.token(x) for x in tr.delivered]
+    if hasattr(tr, 'delivered2'):
+        tr.delivered2 = [progs.token(x) for x in tr.delivered2]
+    if hasattr(tr, 'epochs'):
+        tr.epochs = [[progs.token(x) for x in ep] for ep in tr.epochs]
     tr.outcome = outcome
     tr.sched = sched
     tr.log = sched.log
@@ -450,6 +456,9 @@ def st_case(draw, profile):
         case['none_at'] = draw(st.lists(st.integers(0, n - 1), min_size=1, max_size=2, unique=True))
     if kind in ('pf', 'pm') and draw(st.integers(0, 3)) == 0:
         case['copy'] = True
+    if draw(st.integers(0, 2)) == 0:
+        # examples that are arrays, exception objects, falsy, or refuse ==/bool()/len() altogether
+        case['vk'] = draw(st.sampled_from(progs.VALUE_KINDS[1:]))
     if profile == 'readahead' and kind == 'pf' and w == 1 and draw(st.integers(0, 9)) == 0:
         case['buffer'] = 0  # must be rejected (or, if accepted, still obey the bound)
     if n >= 2 and draw(st.integers(0, 3)) > 0:
@@ -464,6 +473,8 @@ def st_case(draw, profile):
         src_fail, fn_fail = {}, {}
         for p in fails:
             e = draw(st.sampled_from(EXCS))
+            if e == 'VFalsy' and not (kind in ('stp', 'pf2') or (kind == 'pf' and w == 1)):
+                e = 'VErrA'  # falsy exceptions: only where lazy_dataset itself hands the error over (see DESIGN)
             if draw(st.booleans()):
                 src_fail[str(p)] = e
             else:
@@ -507,10 +518,11 @@ def st_case(draw, profile):
         case['stop'] = {'kind': sk, 'k': draw(st.integers(0, n + 1)) if sk != 'exhaust' else 0}
         if draw(st.integers(0, 3)) == 0 and n:
             p = draw(st.integers(0, n - 1))
+            e = draw(st.sampled_from(EXCS[:-1]))
             if draw(st.booleans()):
-                case['src_fail'] = {str(p): draw(st.sampled_from(EXCS))}
+                case['src_fail'] = {str(p): e}
             else:
-                case['fn_fail'] = {str(p): draw(st.sampled_from(EXCS))}
+                case['fn_fail'] = {str(p): e}
     if profile == 'readahead' or draw(st.integers(0, 2)) == 0:
         case['pauses'] = draw(st.lists(st.integers(0, n), min_size=0, max_size=4, unique=True))
     if profile == 'readahead' and kind == 'pf' and draw(st.booleans()):
